@@ -48,6 +48,7 @@ import (
 	chart "helm.sh/helm/v4/pkg/chart/v2"
 	chartutil "helm.sh/helm/v4/pkg/chart/v2/util"
 	"helm.sh/helm/v4/pkg/kube"
+	release "helm.sh/helm/v4/pkg/release/v1"
 	"helm.sh/helm/v4/verifh/core"
 	"helm.sh/helm/v4/verifh/env"
 	"helm.sh/helm/v4/verifh/gen"
@@ -100,6 +101,8 @@ type caseData struct {
 	CSeed   int64    `json:"cseed"`
 	Collide bool     `json:"collide"` // an unowned bystander object sits where the chart wants to create one
 	Combos  []uint32 `json:"combos"`  // bit i = flagsOf[Kind][i]
+	// State "shaped" only: the status of every revision of the starting history, oldest first (shaped.go)
+	Shape []string `json:"shape,omitempty"`
 	// Only restricts a replay to one "comboIndex:spelling"
 	Only string `json:"only,omitempty"`
 }
@@ -213,6 +216,8 @@ func genCases(seed int64, tier string) []core.Case {
 	}
 	// the CLI route (pkg/cmd through a real HTTP connection to the simulator), see cli.go
 	out = append(out, genCLICases(rng, tier)...)
+	// histories as crashes and concurrent operations leave them (own generator, see shaped.go)
+	out = append(out, genShapedCases(seed, tier)...)
 	return out
 }
 
@@ -466,6 +471,14 @@ func prepare(d caseData, fam gen.Family) (*env.World, int) {
 		upg(1, "pre-upgrade")
 		w.Exec("pre-uninstall", relName, env.Op{Kind: "uninstall", KeepHistory: true}, nil)
 		next = 2
+	case shapedState:
+		inst(0, "pre-install")
+		upg(1, "pre-upgrade")
+		for i := 2; i < len(d.Shape); i++ {
+			upg(i%2, fmt.Sprintf("pre-upgrade%d", i))
+		}
+		shapeHistory(w, d.Shape)
+		next = 2
 	default:
 		panic("unknown state " + d.State)
 	}
@@ -647,6 +660,15 @@ func run(c core.Case, verbose bool) core.Result {
 	// the world the dry runs share: they must leave it exactly as it is
 	w, next := prepare(d, fam)
 	ledger0, _ := w.Ledger(relName)
+	stateLabel := d.State
+	if d.State == shapedState {
+		if got := ledgerStatuses(ledger0); !reflect.DeepEqual(got, d.Shape) {
+			res.Inconclusive = fmt.Sprintf("shaped history not established: want %v, raw ledger has [%s]", d.Shape, env.LedgerString(ledger0))
+			return res
+		}
+		stateLabel = shapedState + ":" + strings.Join(d.Shape, ",")
+		res.Stat("shaped_cases", 1)
+	}
 	if verbose {
 		fmt.Printf("case %s: kind=%s driver=%s state=%s collide=%v ledger=[%s] chart version for the op=%d, %d flag combinations\n",
 			c.ID, d.Kind, d.Driver, d.State, d.Collide, env.LedgerString(ledger0), next, len(d.Combos))
@@ -711,6 +733,22 @@ func run(c core.Case, verbose bool) core.Result {
 			ledAfter, bad := w.Ledger(relName)
 			res.Evals++
 			res.Stat("dry_ops_"+d.Kind, 1)
+			if d.State == shapedState {
+				last, older := shapeClass(d.Shape)
+				res.Stat("shaped_dry_ops_"+d.Kind, 1)
+				if older >= 2 || (older == 1 && last == "deployed") {
+					res.Stat("shaped_dry_ops_several_deployed", 1)
+					if last != "deployed" {
+						res.Stat("shaped_dry_ops_several_deployed_below_other_latest_"+d.Kind, 1)
+					}
+				}
+				if release.Status(last).IsPending() || last == "uninstalling" {
+					res.Stat("shaped_dry_ops_latest_in_transition", 1)
+				}
+				if wrote {
+					res.Stat("shaped_dry_ops_nontrivial", 1)
+				}
+			}
 			for cl, n := range o.byClass {
 				res.Stat("dry_requests_inspected_"+cl, int64(n))
 			}
@@ -752,7 +790,7 @@ func run(c core.Case, verbose bool) core.Result {
 			}
 			if wrote || (d.Kind == "template" && len(co.all) > 0) {
 				res.Stat("dry_ops_nontrivial", 1)
-				res.Key("%s|%s|%s|%s|%s", d.Kind, d.Driver, d.State, sp, f)
+				res.Key("%s|%s|%s|%s|%s", d.Kind, d.Driver, stateLabel, sp, f)
 			}
 			if verbose {
 				fmt.Printf("    dry=%-11s err=%s requests=%v mutations=%d storage-writes=%d snapshot-diff=%d\n", sp, errStr(oerr), o.byClass, len(o.mutations), len(o.stWrites), len(diffSnap(snapBefore, snapAfter)))
@@ -763,7 +801,7 @@ func run(c core.Case, verbose bool) core.Result {
 		}
 	}
 	if strings.HasSuffix(c.ID, "-0") {
-		res.Sample = map[string]any{"kind": d.Kind, "driver": d.Driver, "ledger_before": env.LedgerString(ledger0), "collide": d.Collide, "ops": sampleOps}
+		res.Sample = map[string]any{"kind": d.Kind, "state": stateLabel, "driver": d.Driver, "ledger_before": env.LedgerString(ledger0), "collide": d.Collide, "ops": sampleOps}
 	}
 	return res
 }
@@ -802,6 +840,20 @@ func post(a *core.Agg) string {
 	}
 	if a.Stats["client_only_ops_strict"] == 0 {
 		miss = append(miss, "no client-only template executed")
+	}
+	for _, k := range shapedKinds {
+		if a.Stats["shaped_dry_ops_"+k] == 0 {
+			miss = append(miss, "no dry-run "+k+" executed on a shaped history")
+		}
+		if a.Stats["shaped_dry_ops_several_deployed_below_other_latest_"+k] == 0 {
+			miss = append(miss, "no dry-run "+k+" executed on a history with several deployed revisions below a latest revision that is not deployed")
+		}
+	}
+	if a.Stats["shaped_dry_ops_latest_in_transition"] == 0 {
+		miss = append(miss, "no dry run executed on a history whose latest revision is pending or uninstalling")
+	}
+	if a.Stats["shaped_dry_ops_nontrivial"] == 0 {
+		miss = append(miss, "no dry run on a shaped history had a writing positive control")
 	}
 	if a.Stats["dry_ops_nontrivial"] < 100 {
 		miss = append(miss, fmt.Sprintf("only %d dry runs had a writing positive control", a.Stats["dry_ops_nontrivial"]))
